@@ -749,8 +749,10 @@ func findLeadingZeroPub(par *hdref.Node, start uint32, maxTries int) (uint32, bo
 // setNetThenChild: SetNet on a key, then derivation: children, neutered forms and strings carry the new network's
 // version bytes and are otherwise the BIP32 nodes (SetNet "associates the key, and any child keys yet to be derived").
 func setNetThenChild(r *vh.RNG, a, b int, corr bool) {
-	seed := r.Bytes(16 + r.Intn(49))
-	prefix := []uint32{randIndex(r)}
+	setNetRun(r.Bytes(16+r.Intn(49)), []uint32{randIndex(r)}, a, b, [3]uint32{uint32(r.Intn(1000)), H + uint32(r.Intn(1000)), uint32(r.Intn(1000))}, corr)
+}
+
+func setNetRun(seed []byte, prefix []uint32, a, b int, idx [3]uint32, corr bool) {
 	c := ctx{seed: seed, net: a, path: prefix}
 	k, err := derivePriv(seed, a, prefix)
 	n := refDerive(seed, prefix)
@@ -760,12 +762,13 @@ func setNetThenChild(r *vh.RNG, a, b int, corr bool) {
 	k.SetNet(nets[b])
 	vpriv, vpub := nets[b].HDPrivateKeyID[:], nets[b].HDPublicKeyID[:]
 	rep.Count("setnet_child", fmt.Sprint("sn", vh.Hex(seed), a, b), a != b)
-	what := map[string]interface{}{"then": "SetNet(" + nets[b].Name + ") on the key at the path, then Child / Neuter / String"}
+	what := map[string]interface{}{"then": "SetNet(" + nets[b].Name + ") on the key at the path, then Child / Neuter / String",
+		"setnet_from": a, "setnet_to": b, "setnet_prefix": prefix, "setnet_children": idx}
 	if d := conforms(k, n, vpriv); d != "" || k.String() != hdref.String(nil, n, vpriv) || !k.IsForNet(nets[b]) || (a != b && nets[a].HDPrivateKeyID != nets[b].HDPrivateKeyID && k.IsForNet(nets[a])) {
 		rep.Violate("C04:string:conforms", "after SetNet the key is not the same BIP32 node under the new network's version: "+d, c.replay(what))
 		return
 	}
-	for _, i := range []uint32{uint32(r.Intn(1000)), H + uint32(r.Intn(1000))} {
+	for _, i := range []uint32{idx[0], idx[1]} {
 		parF := k.VerifFields()
 		ch, err := k.Child(i)
 		co := hdref.NewOracle()
@@ -809,7 +812,7 @@ func setNetThenChild(r *vh.RNG, a, b int, corr bool) {
 		rep.Violate("C04:neuter:conforms", "after SetNet a public key is not the same node under the new network's public version: "+d, c.replay(what))
 		return
 	}
-	i := uint32(r.Intn(1000))
+	i := idx[2]
 	pc, perr := nk.Child(i)
 	qn, qst, qgap := hdref.CKDpub(nil, hdref.Neuter(n), i)
 	if !(qgap.ILZero || qgap.ChildZero) && qst == hdref.Valid {
@@ -1103,20 +1106,26 @@ func main() {
 	if cfg.Replay != "" {
 		var rp struct {
 			Input struct {
-				Seed         string   `json:"seed"`
-				Net          int      `json:"net_index"`
-				Path         []uint32 `json:"path_indices"`
-				Hist         []uint32 `json:"children_derived_from_the_same_object_in_order"`
-				ParsedAt     *int     `json:"parsed_at"`
-				ParsedPublic bool     `json:"parsed_public"`
-				Then         string   `json:"then"`
+				Seed         string    `json:"seed"`
+				Net          int       `json:"net_index"`
+				Path         []uint32  `json:"path_indices"`
+				Hist         []uint32  `json:"children_derived_from_the_same_object_in_order"`
+				SetNetTo     *int      `json:"setnet_to"`
+				SetNetFrom   int       `json:"setnet_from"`
+				SetNetPrefix []uint32  `json:"setnet_prefix"`
+				SetNetIdx    [3]uint32 `json:"setnet_children"`
+				ParsedAt     *int      `json:"parsed_at"`
+				ParsedPublic bool      `json:"parsed_public"`
+				Then         string    `json:"then"`
 			} `json:"input"`
 		}
 		b, err := os.ReadFile(cfg.Replay)
 		vh.Must(err)
 		vh.Must(json.Unmarshal(b, &rp))
 		seed, _ := hex.DecodeString(rp.Input.Seed)
-		if rp.Input.ParsedAt != nil && *rp.Input.ParsedAt <= len(rp.Input.Path) {
+		if rp.Input.SetNetTo != nil {
+			setNetRun(seed, rp.Input.SetNetPrefix, rp.Input.SetNetFrom%len(nets), *rp.Input.SetNetTo%len(nets), rp.Input.SetNetIdx, false)
+		} else if rp.Input.ParsedAt != nil && *rp.Input.ParsedAt <= len(rp.Input.Path) {
 			// an ancestor's replay names the ancestor's path only: extend it as the family does (8 more steps)
 			path := append([]uint32{}, rp.Input.Path...)
 			if rp.Input.Then != "" {
